@@ -1,6 +1,8 @@
 """C20 — Reported progress is a proper weighted fraction.
 Implementation driven: FlowIRConcrete(...) -> inject_default_values (weights), the real
-StatusMonitor.__init__ (re-check) and the real CheckStatus closure of StatusMonitor.run (total progress)."""
+StatusMonitor.__init__ (re-check and its own fallback) and the real CheckStatus closure of StatusMonitor.run (total
+progress); malformed weights through both consumers and through the monitor alone (_explore_malformed); the real
+Controller.get_stages_finished/get_stages_in_transit while DoWhile iterations add nodes (_explore_controller)."""
 import os
 import tempfile
 import shutil
@@ -28,6 +30,16 @@ ASSUMPTIONS = [
     'SF2Prim_Prim2SF, Prim2SF_SF2Prim (Coq.Floats.FloatAxioms: the primitives implement IEEE-754 binary64); '
     'the PrimFloat/PrimInt63 primitives',
     'StatusMonitor is driven with a duck-typed experiment/controller (fakes trusted)',
+    'malformed weights (Model.wt): whether a text is numeric, unparsable (ValueError) or nan/inf is decided by Python\'s '
+    'float() itself in the harness; objects float() refuses with TypeError are None, a list, a mapping; the value an '
+    'unconvertible entry counts as in StatusMonitor.__init__ (fallbackWeight*1000) is modelled as the rational 1000/n '
+    '(equal to the code\'s decimal whenever 1000/n terminates, checked n <= 5000; generated n <= 2000); a load that '
+    'raises (TypeError for None/list/mapping) counts as "no workflow loaded"; the new theorems C20_malformed_weights, '
+    'C20_monitor_weights, C20_weights_numbers, C20_used_progress, C20_stage_lists are closed under the global context '
+    '(no axiom)',
+    'controller family: the real Controller and CheckStatus are driven by harness/c20_ctl.py (terminations delivered '
+    'through Controller.finishedCheck, nothing is launched; harness/c05_impl.py documents/_new_controller imported '
+    'read-only); a node counts as active until finishedCheck returned for it',
 ]
 HEADER = 'Require Import V.Weights.Model.\nOpen Scope Z_scope.'
 CHECKER = 'check_case'
